@@ -90,6 +90,16 @@ CLAIMED["C29"] = ("concolic execution (pysym+z3) of check_overlap with all 12 sl
                   "bounded SMT verification: boxes that share a cell => check_overlap is True for all integer bounds (64 per-axis relation classes); for a representative pair per class the source's cached material state equals the post-device arrays for every parameter value",
                   "mode/plane sources, detectors' (material-independent) state and dispersive devices out of scope", "4/C29")
 
+CLAIMED["C20"] = ("jaxpr->SMT (z3) of tanh_projection / smoothed_projection and their jax.grad jaxprs; tanh/sqrt as uninterpreted functions with sound axioms; definedness obligations on all branches",
+                  "bounded SMT verification: range [0,1], monotonicity (two symbolic points), fixed points 0 and 1, beta=0 equals clip, beta=inf equals a step away from eta, smoothed equals plain in cells without an interface, and every division / sqrt of primal and gradient jaxprs is defined for all x, rho, eta in [0,1] and beta >= 0 (incl. inf)",
+                  "reals for floats: float overflow / 0*inf in masked branches out of scope; arrays <= 4x4; interface-free criterion is the harness's finite-difference criterion", "4/C20")
+CLAIMED["C35"] = ("concolic execution (pysym+z3) of compute_pole_coefficients_* with all pole parameters and dt symbolic; jaxpr->SMT of susceptibility_from_coefficients with symbolic omega",
+                  "bounded SMT verification: chi reconstructed from the stored recurrence coefficients equals the declared Lorentz / Drude / CCPR / critical-point model (cross-multiplied polynomial identity, real and imaginary parts) for all parameters with omega_0*dt < 2 and damping >= 0; no root of z^2 - c1 z - c2 outside the unit circle; zero-padded slots contribute exactly nothing",
+                  "reals for floats; the asymptotic O((omega dt)^2) clause is NOT covered (limit statement); <= 2 poles per model; exactly undamped resonance excluded", "4/C35")
+CLAIMED["C41"] = ("concolic execution (pysym+z3) of WaveCharacter; jaxpr->SMT of the temporal profiles with cos/exp as uninterpreted functions plus sound axioms",
+                  "bounded SMT verification: period*frequency == 1 and wavelength == c*period for each given; the sampled custom signal is exact at samples and linear between them for all signals and times; |continuous-wave amplitude| <= ramp <= 1, Gaussian envelopes in (0,1]",
+                  "reals for floats; signals of 2-6 samples; nearest-mode values between samples and Tukey window out of scope", "4/C41")
+
 NOT_APPLICABLE = {
     "C12": "numerical accuracy bound (1e-6 residual energy after >=1e3 steps on >=40^3 cells in floating point); no algebraic identity, far beyond any bounded real-arithmetic encoding",
     "C13": "1e-3 power-ratio bound after hundreds of steps (TFSF leakage is small but non-zero by design); not an identity, out of reach for bounded real arithmetic",
